@@ -11,6 +11,8 @@ R08.3 halting opcodes end the path: for every byte the oracle marks halting (STO
       non-halting opcode does.
 R08.4 push data is never an instruction: the JUMPDEST type is produced only by the arm for byte 0x5b of the byte table (the
       table itself being reachable only when no immediate is pending — C10 R10.2).
+R08.6 targets through memory: the function handing a stored value to a word load consults the recorded store size (a byte written by
+      MSTORE8 is not a word).
 R08.5 both outcomes explored: on the conditional jump's valid-target path the current thread is neither killed nor moved and
       the fork is conditional only on the per-target fork budget; on a bad target the fall-through thread survives.
 """
@@ -450,13 +452,13 @@ def check(fx, rep, tier):
         for b, sized in readers:
             rep.oblige(
                 sized,
-                "R08.1",
+                "R08.6",
                 f"store-size-honoured:{F.strip_generics(b['def'])}",
                 F.loc(b["span"]),
                 f"`{b['def']}` hands the data of the latest store at an offset to a word load without looking at the recorded store size: the byte written by MSTORE8 is read back as if it were the whole word, so a jump through `mload` goes to a constant memory does not hold",
-                sample={"rule": "R08.1", "fn": b["def"], "reads_store_size": sized},
+                sample={"rule": "R08.6", "fn": b["def"], "reads_store_size": sized},
             )
-        rep.floor("R08.1", len(readers), 1, "functions handing stored memory data to loads")
+        rep.floor("R08.6", len(readers), 1, "functions handing stored memory data to loads")
 
     # jump targets computed from PC: PC pushes the offset of the PC instruction itself (shared with C07 R07.2)
     from .. import core
